@@ -281,7 +281,7 @@ func runC10(c *Ctx) {
 		}
 	}
 	c.jsonPatchFoldRule("C10.P1")
-	c.Min("C10.P1", 5)
+	c.Min("C10.P1", 6)
 
 	c.composerSkeletons("C10.X2", handlers)
 	c.Min("C10.X2", 12)
@@ -438,6 +438,49 @@ func runC14(c *Ctx) {
 	// (insert-or-replace by id within the handler's own list) are part of this check
 	c.composerSkeletons("C14.X2", c.composerHandlers())
 	c.Min("C14.X2", 12)
+	// ---- K2 one decoder: a patch built by a constructor, the same patch parsed back from its bytes, and the document it
+	// is applied to must agree on how JSON values are represented (numbers as float64, objects as maps): every decode in
+	// the patch and document packages is a plain encoding/json.Unmarshal — no Decoder options (UseNumber, ...)
+	{
+		idioms := map[string]int{}
+		n := 0
+		for _, rel := range []string{"patch", "document"} {
+			sp := c.SPkg[modPkg+rel]
+			if sp == nil {
+				c.Unresolved("C14.K2", "package "+rel)
+				continue
+			}
+			for _, f := range allFuncs(sp) {
+				forEachInstr(f, func(in ssa.Instruction) {
+					cl, ok := in.(*ssa.Call)
+					if !ok || cl.Call.StaticCallee() == nil {
+						return
+					}
+					g := cl.Call.StaticCallee()
+					if g.Pkg == nil || !strings.HasSuffix(g.Pkg.Pkg.Path(), "json") || g.Pkg.Pkg.Path() == modPkg+"util/json" {
+						return
+					}
+					switch g.Name() {
+					case "Unmarshal", "Decode", "UseNumber", "DisallowUnknownFields", "NewDecoder":
+						n++
+						idioms[g.String()]++
+					}
+				})
+			}
+		}
+		var other []string
+		for k := range idioms {
+			if k != "encoding/json.Unmarshal" {
+				other = append(other, k)
+			}
+		}
+		sort.Strings(other)
+		c.Check("C14.K2", "one-json-decoder", n > 0 && len(other) == 0, 0, fmt.Sprintf("%d decode call(s) in the patch and document packages, all encoding/json.Unmarshal (others: %v)", n, other))
+	}
+	c.Min("C14.K2", 1)
+	// the combined ietf-json-patch produced from a document is applied by the library, and by nothing else
+	c.jsonPatchFoldRule("C14.X3")
+	c.Min("C14.X3", 2)
 	// ---- J1 hand-assembled JSON lists (PatchesFromDocument formats RFC 6902 operations from a text template):
 	// a separator written under a test of the loop index is only right when every iteration writes an element
 	if pfd := c.Fn("patch", "PatchesFromDocument"); pfd != nil {
@@ -1286,6 +1329,35 @@ func (c *Ctx) jsonPatchFoldRule(rule string) {
 				ok, why = false, "a successful exit returns "+c.Path(rv, nil)+" instead of the library's result"
 			}
 		}
+	}
+	// closed set of refusals: the function says no only when the library does, or for a copy of a value into itself
+	// (C19.G). Any further refusal turns away a patch that validation accepted and the library can apply — a document
+	// whose members produce such an operation (e.g. a null member) would no longer survive document -> patches -> document
+	{
+		allowed := map[string]bool{}
+		forEachInstr(fn, func(in ssa.Instruction) {
+			if cl, isC := in.(*ssa.Call); isC {
+				if g := cl.Call.StaticCallee(); g != nil && inModule(g) && returnsError(g) {
+					cs := c.stringConstsDeep(g, 3)
+					if cs["copy"] && cs["from"] && cs["path"] && !cs["add"] && !cs["replace"] && !cs["test"] && !cs["value"] {
+						allowed[short(g.String())+"("] = true
+					}
+				}
+			}
+		})
+		var extra []string
+		for _, r := range c.rejectionReasons(fn, nil, false, 3) {
+			okR := strings.Contains(r, "json-patch.Patch).Apply(")
+			for a := range allowed {
+				if strings.Contains(r, a) {
+					okR = true
+				}
+			}
+			if !okR {
+				extra = append(extra, r)
+			}
+		}
+		c.Check(rule, "json-patch:no-refusal-of-its-own", len(extra) == 0, fn.Pos(), "the applying function refuses only what the library refuses, or a copy of a value into itself", extra...)
 	}
 	c.Check(rule, "json-patch:operations-threaded-through-the-library", ok, site.Pos(), "RFC 6902 operations are a left fold of the library's Apply over the document bytes "+why)
 }
